@@ -75,6 +75,16 @@ type Scenario struct {
 	Rounds    int           `json:"rounds,omitempty"`  // real-bind scenarios
 	Partial   bool          `json:"partial,omitempty"` // the last recorded step did not settle: judged by the property only
 	Crash     string        `json:"crash,omitempty"`
+	Flood     *FloodStats   `json:"flood,omitempty"`
+}
+
+// FloodStats summarises a flood pass: only the datagrams that failed the filter are in the scenario's observations.
+type FloodStats struct {
+	Injected  int  `json:"injected"`
+	Datagrams int  `json:"datagrams"`
+	Good      int  `json:"good"`
+	Offenders int  `json:"offenders"`
+	Stalled   bool `json:"stalled,omitempty"`
 }
 
 // poisoned: this process must not run another scenario (a step did not settle or the device did not close)
@@ -873,12 +883,18 @@ type job struct {
 	run  func() *Scenario
 }
 
+var floodMs = 1500
+
 func buildJobs(seed int64, n int, big bool, corpus, replayIn string) []job {
 	var jobs []job
 	fixedJob := func(sc *Scenario) job {
 		return job{sc.Gen, func() *Scenario {
 			if sc.Kind == "pad" {
 				runPad(sc)
+				return sc
+			}
+			if strings.HasPrefix(sc.Gen, "flood-") {
+				runFlood(sc)
 				return sc
 			}
 			if strings.HasPrefix(sc.Gen, "real-bind") {
@@ -933,6 +949,7 @@ func buildJobs(seed int64, n int, big bool, corpus, replayIn string) []job {
 		jobs = append(jobs, fixedJob(sc))
 	}
 	jobs = append(jobs, fixedJob(realBindScenario(2, 150)), fixedJob(realBindScenario(3, 100)))
+	jobs = append(jobs, fixedJob(floodScenario(1, floodMs)), fixedJob(floodScenario(1, floodMs)), fixedJob(floodScenario(3, floodMs/2)))
 	master := rand.New(rand.NewSource(seed)) // ONE PRNG: it deals a seed to every random scenario
 	for i := 0; i < n; i++ {
 		s := master.Int63()
@@ -953,6 +970,7 @@ func main() {
 	replayIn := flag.String("replay", "", "JSON file with scenarios (inputs) to re-run")
 	corpus := flag.String("corpus", "", "directory of corpus JSON scenarios to run first")
 	big := flag.Bool("big", false, "thorough tier: largest packets too")
+	flag.IntVar(&floodMs, "floodms", 1500, "duration of a flood pass in ms")
 	child := flag.String("child", "", "internal: run jobs lo:hi")
 	childOut := flag.String("childout", "", "internal: result file of a child")
 	flag.Parse()
@@ -978,7 +996,13 @@ func main() {
 	for _, a := range os.Args[1:] {
 		args = append(args, a)
 	}
-	raw, crash := dpath.RunChildren(len(jobs), 12, 6, nil, args, *out, 20*time.Second)
+	solo := map[int]bool{}
+	for i, j := range jobs {
+		if strings.HasPrefix(j.name, "flood-") {
+			solo[i] = true
+		}
+	}
+	raw, crash := dpath.RunChildren(len(jobs), 12, 6, solo, args, *out, 20*time.Second)
 	var kept []*Scenario
 	discarded, crashed := 0, 0
 	for i := range jobs {
